@@ -213,6 +213,23 @@ impl Config {
     }
 }
 
+#[cfg(rust_cc_verif)]
+impl Config {
+    pub(crate) fn verif_new(bytes_threshold: usize, adjustment_percent: f64, buffered_threshold: usize, auto_collect: bool) -> Self {
+        let mut c = Self::new();
+        c.bytes_threshold = bytes_threshold;
+        c.adjustment_percent = adjustment_percent;
+        c.buffered_threshold = NonZeroUsize::new(buffered_threshold);
+        c.auto_collect = auto_collect;
+        c
+    }
+
+    #[inline]
+    pub(crate) fn verif_bytes_threshold(&self) -> usize {
+        self.bytes_threshold
+    }
+}
+
 impl Default for Config {
     #[inline]
     fn default() -> Self {
